@@ -308,3 +308,34 @@ def widen(rng, spec, prob=0.12, n_range=(40, 120), p_range=(80, 320), p0=(1, 3, 
         if "p0" in spec.get("knobs", {}):
             spec["knobs"]["p0"] = int(rng.choice(list(p0)))
     return spec
+
+
+TOLSWEEP_FAMILIES = [("GramCD", None, "L1"), ("GramCD", None, "WeightedL1"), ("GramCD", None, "L1_plus_L2"),
+                     ("GramCD", None, "MCPenalty"), ("AndersonCD", "Quadratic", "L1"), ("AndersonCD", "Quadratic", "MCPenalty"),
+                     ("AndersonCD", "Logistic", "L1"), ("AndersonCD", "Huber", "WeightedL1"),
+                     ("GroupBCD", "QuadraticGroup", "WeightedGroupL2"), ("MultiTaskBCD", "QuadraticMultiTask", "L2_1")]
+
+
+def tol_sweep(rng, spec, k):
+    """k copies of `spec` (same data: same rng coordinates) that differ only in the tolerance, log-spaced with jitter over
+    1e-2 .. 1e-10, budgets generous, acceleration on: the iteration at which the run leaves on its tolerance sweeps over
+    all phases of the extrapolation cycle (just before / just after an accepted or rejected extrapolation)."""
+    info = SOLVER_INFO[spec["solver"]]
+    b_it, b_ep = (info["budget"] + (None,))[:2]
+    out = []
+    for t in np.logspace(-2, -10, k) * 10 ** rng.uniform(-0.3, 0.3, size=k):
+        s2 = dict(spec)
+        kn = dict(spec["knobs"])
+        kn["tol"] = float(t)
+        kn[b_it] = 5000 if spec["solver"] == "GramCD" else 200
+        if b_ep:
+            kn[b_ep] = 5000 if b_ep == "max_epochs" else 200
+        if spec["solver"] == "GramCD":
+            kn.update(use_acc=True, greedy_cd=False)
+        if spec["solver"] == "MultiTaskBCD":
+            kn["use_acc"] = True
+        s2["knobs"] = kn
+        s2["budget_class"] = "converges"
+        s2["warm"] = "cold" if spec.get("warm") not in ("cold", "zero", "dense") else spec["warm"]
+        out.append(s2)
+    return out
